@@ -7,5 +7,5 @@ NoWrap == [n \in Node |-> "none"]
 NoFail == [n \in Node |-> "none"]
 Disj == {p \in (SUBSET Node) \X (SUBSET Node) : p[1] \cap p[2] = {}}
 Fam == {[single |-> [n \in Node |-> g[n][1]], selfOpt |-> AllFalse, slice |-> [n \in Node |-> g[n][2]],
-         sliceOpt |-> AllFalse, lazy |-> {}, wrap |-> NoWrap, fail |-> NoFail, procs |-> <<>>, mode |-> [n \in Node |-> "normal"], rorder |-> <<>>] : g \in [Node -> Disj]}
+         sliceOpt |-> AllFalse, lazy |-> {}, wrap |-> NoWrap, fail |-> NoFail, procs |-> <<>>, mode |-> [n \in Node |-> "normal"], rorder |-> <<>>, ilook |-> NoLook] : g \in [Node -> Disj]}
 =============================================================================
